@@ -36,6 +36,8 @@ def blocking_sites(eng, fb, f):
                 continue
             q = c.get("qname") or c.get("fq") or ""
             for b in table()["blocking_calls"]:
+                if b.get("param") and not any(b["param"] in pt for pt in c.get("params", [])):
+                    continue
                 if re.search(b["fq"], q) or re.search(b["fq"], c.get("fq", "")):
                     if b["what"] in ("lock object lock()", "timed lock"):
                         break     # already reported through the lock analysis
